@@ -25,7 +25,7 @@ def gen(rng, tier):
     if left == "cfg":
         g = GC.gen_cfg(rng, max_vars=3, max_prods=6, max_body=3)
         if g["valmode"] in ("str", "V") and rng.chance(0.2):
-            g.update(valmode=rng.pick(["mixed", "binint", "binint"]), hash=None, hashmode="plain")
+            g.update(valmode=rng.pick(["mixed", "binint", "binint", "tup"]), hash=None, hashmode="plain")
         # the automaton's symbols are the grammar's terminal values, also when those are ints and floats
         symmode = "V" if g["valmode"] == "V" else "cfg:" + g["valmode"] if g["valmode"] in GC.TERM_MAPS else "str"
         terms = g["terms"]
@@ -104,6 +104,8 @@ def gen(rng, tier):
                 if fa["valmode"] == "int":
                     fa["valmode"] = "str"
         fa["symmode"] = symmode
+        if rng.chance(0.1):
+            GF.mix_states(fa)          # int and str state values in one automaton (not mutually comparable)
         h = dict(fa.get("hash") or {})
         if symmode == "V":
             for s in fa["symbols"] + [GF.FOREIGN]:
